@@ -56,8 +56,8 @@ RUN_TIMEOUT = 300
 MIXES = ("uni", "aave", "uni+aave", "uni+aave", "uni+aave", "squeeth", "gmx", "gmx2", "deribit")
 KINDS = {
     "uni": ("idle", "lp", "lp", "multi", "indicator", "vandal", "crasher"),
-    "aave": ("idle", "aave", "aave", "multi", "vandal", "crasher"),
-    "uni+aave": ("idle", "lp", "aave", "multi", "multi", "indicator", "vandal", "crasher"),
+    "aave": ("idle", "aave", "aave", "multi", "vandal", "crasher", "whale"),
+    "uni+aave": ("idle", "lp", "aave", "multi", "multi", "indicator", "vandal", "crasher", "whale"),
     "squeeth": ("idle", "trader", "trader", "lp", "multi", "vandal", "crasher"),
     "gmx": ("idle", "trader", "trader", "multi", "vandal", "crasher"),
     "gmx2": ("idle", "trader", "trader", "multi", "vandal", "crasher"),
@@ -305,7 +305,7 @@ _StrategyBase = _demeter.Strategy if _demeter is not None else object
 
 USES = {
     "idle": (), "lp": ("uniswap_v3",), "aave": ("aave_v3",), "trader": ("*",), "multi": ("*", "broker"),
-    "indicator": ("uniswap_v3",), "vandal": ("*", "broker"), "crasher": ("*",),
+    "indicator": ("uniswap_v3",), "vandal": ("*", "broker"), "crasher": ("*",), "whale": ("aave_v3",),
 }
 
 
@@ -357,6 +357,8 @@ class PlanStrategy(_StrategyBase):
             from demeter import DemeterError
 
             raise DemeterError("c19 crasher")
+        if sp["kind"] == "whale" and self._bar == 0:
+            self._whale()
         self._trade(snapshot, sp["act"])
 
     def after_bar(self, snapshot):
@@ -388,6 +390,23 @@ class PlanStrategy(_StrategyBase):
             return
         for _ in range(self._rng.randint(1, 3)):
             self._one_op(snapshot)
+
+    def _whale(self):
+        """everything it owns supplied as collateral against a debt far below one atomic unit: figures at the far end of
+        their range (a health factor of 1e30 and more), then it trades like any other Aave user"""
+        from .. import drive as Dr
+
+        am = [m for m in self.broker.markets.values() if m.market_info.type.name == "aave_v3"][0]
+        aw = _WORLD.aux["aave"]
+        held = [(t, self.broker.get_token_balance(t)) for t in aw.tokens if t in self.broker.assets]
+        for t, b in held:
+            if b > 0 and aw.risk[t.name]["collateral"]:
+                Dr.call_op(am.supply, t, b, True)
+        debt = [t for t in aw.tokens if aw.risk[t.name]["borrow"]]
+        if debt:
+            Dr.call_op(am.borrow, self._rng.choice(debt), Decimal(self._rng.choice(["3e-27", "1e-30", "1e-24", "1e-22"])))
+        Dr.call_op(lambda: am.health_factor)
+        Dr.call_op(am.get_market_balance)
 
     def _one_op(self, snapshot):
         from .. import drive as Dr
